@@ -41,3 +41,13 @@ claim("C10", E1,
       "jaxpr -> SMT (QF_NRA with tanh/sqrt as axiomatised UFs, PRNG draws as key-determined symbols)",
       "DESIGN.md §3 C10")
 NOT_APPLICABLE.pop("C10", None)
+
+claim("C13", E1,
+      "Bounded symbolic check of the real SoftmaxPolicy, GaussianPolicy and GaussianTanhPolicy heads (unbatched observation, batch "
+      "1-3, action dim 1-3, 2-4 discrete actions) over a free network whose outputs are arbitrary reals: probabilities, log-"
+      "probabilities, entropies and samples are SMT-compared with the closed forms (softmax / diagonal Gaussian with clipped std, "
+      "sample = mean + std*n(key), Gumbel-arg-max), plus greedy arg-max selection for Q-networks and Q-tables.",
+      REAL + " epsilon-greedy and the exploration schedule inside training loops are not yet covered by this check.",
+      "jaxpr -> SMT (QF_NRA + axiomatised exp/log/tanh; purified nlsat fallback); shape failures replayed eagerly",
+      "DESIGN.md §3 C13")
+NOT_APPLICABLE.pop("C13", None)
